@@ -328,6 +328,35 @@ func c02WorkerMain(script string) {
 						res = "ok size=" + strconv.FormatInt(sz, 10)
 					}
 				}
+			case "zap":
+				// damage in the middle of the file: zero the size field of the N-th block
+				nth, _ := strconv.Atoi(f[1])
+				p := filepath.Join(dir, "sw.hyd")
+				b, err := os.ReadFile(p)
+				if err != nil || len(b) < 64 {
+					res = "err nofile"
+					break
+				}
+				off := 64 + int(binary.LittleEndian.Uint16(b[44:46]))
+				for ; nth > 0 && off+16 <= len(b); nth-- {
+					off += 16 + int(binary.LittleEndian.Uint32(b[off:off+4]))
+				}
+				if off+16 > len(b) {
+					res = "err noblock"
+					break
+				}
+				copy(b[off:off+4], []byte{0, 0, 0, 0})
+				if err := os.WriteFile(p, b, 0o644); err != nil {
+					res = "err " + err.Error()
+				} else {
+					res = "ok off=" + strconv.Itoa(off)
+				}
+			case "size":
+				if st, err := os.Stat(filepath.Join(dir, "sw.hyd")); err == nil {
+					res = "ok " + strconv.FormatInt(st.Size(), 10)
+				} else {
+					res = "ok -"
+				}
 			case "fsize":
 				// RLIMIT_FSIZE soft limit (0 = unlimited again)
 				lim, _ := strconv.ParseUint(f[1], 10, 64)
@@ -1194,6 +1223,12 @@ func c02TraceCases(cases []c02CaseIn, extraStrace []string) ([]c02CaseOut, error
 					co.Plant = []c02Sys{{Cmd: -1, Op: "trunc", Path: "main", Off: n, Res: "ok", Kind: "plant"}}
 				}
 			}
+			if strings.HasPrefix(co.Text, "zap ") {
+				if k := strings.Index(co.Res, "off="); k >= 0 {
+					n, _ := strconv.ParseInt(co.Res[k+4:], 10, 64)
+					co.Plant = []c02Sys{{Cmd: -1, Op: "write", Path: "main", Off: n, Data: []byte{0, 0, 0, 0}, Want: 4, Res: "ok", Kind: "zero"}}
+				}
+			}
 		}
 	}
 	for _, s := range sys {
@@ -1201,7 +1236,7 @@ func c02TraceCases(cases []c02CaseIn, extraStrace []string) ([]c02CaseOut, error
 			continue
 		}
 		co := &outs[refs[s.Cmd].ci].Cmds[refs[s.Cmd].ki]
-		if strings.HasPrefix(co.Text, "plant ") || strings.HasPrefix(co.Text, "cut ") {
+		if strings.HasPrefix(co.Text, "plant ") || strings.HasPrefix(co.Text, "cut ") || strings.HasPrefix(co.Text, "zap ") {
 			continue // the worker's own WriteFile; represented by the pseudo-operations
 		}
 		co.Sys = append(co.Sys, s)
@@ -1340,10 +1375,15 @@ func c02TornOffsets(n int, thorough bool) []int {
 
 // crash points for operations [from, to] of a log: every boundary, torn writes, and lossy
 // variants (data of the writes since j lost, metadata kept)
-func c02ImagePoints(ops []c02Sys, from, to int, thorough bool, maxTorn int) [][3]int {
-	var out [][3]int
+// A fourth component z > 0 is a zero extension: the size of the in-flight write reached the disk,
+// the bytes behind its first k did not (they read as zeros) — what a power loss can leave.
+func c02ImagePoints(ops []c02Sys, from, to int, thorough bool, maxTorn int) [][4]int {
+	var out [][4]int
 	for i := from; i <= to && i <= len(ops); i++ {
-		out = append(out, [3]int{i, i, 0})
+		out = append(out, [4]int{i, i, 0, 0})
+		if i < len(ops) && ops[i].Op == "write" && ops[i].Path == "main" && ops[i].Off > 0 && len(ops[i].Data) <= maxTorn {
+			out = append(out, [4]int{i, i, 0, len(ops[i].Data)})
+		}
 		if i < len(ops) && ops[i].Op == "write" && len(ops[i].Data) <= maxTorn {
 			ks := c02TornOffsets(len(ops[i].Data), thorough)
 			if ops[i].Kind == "nm" {
@@ -1361,7 +1401,12 @@ func c02ImagePoints(ops []c02Sys, from, to int, thorough bool, maxTorn int) [][3
 				sort.Ints(ks)
 			}
 			for _, k := range ks {
-				out = append(out, [3]int{i, i, k})
+				out = append(out, [4]int{i, i, k, 0})
+				// (bytes that are zero anyway would make the extension the finished write: nothing new)
+				if ops[i].Path == "main" && ops[i].Off > 0 && ops[i].Kind != "nm" && k < len(ops[i].Data) &&
+					bytes.Count(ops[i].Data[k:], []byte{0}) != len(ops[i].Data)-k {
+					out = append(out, [4]int{i, i, k, len(ops[i].Data) - k})
+				}
 			}
 		}
 		ls := c02LastSync(ops, i)
@@ -1376,9 +1421,9 @@ func c02ImagePoints(ops []c02Sys, from, to int, thorough bool, maxTorn int) [][3
 			if !meta {
 				continue
 			}
-			out = append(out, [3]int{i, j, 0})
+			out = append(out, [4]int{i, j, 0, 0})
 			if ops[j].Op == "write" && len(ops[j].Data) > 1 {
-				out = append(out, [3]int{i, j, len(ops[j].Data) / 2})
+				out = append(out, [4]int{i, j, len(ops[j].Data) / 2, 0})
 			}
 		}
 	}
@@ -1517,7 +1562,9 @@ func c02EmitCase(w *bufio.Writer, co c02CaseOut, imgFor func(ki int, c c02CmdOut
 			} else {
 				fmt.Fprintln(w, "act load - "+st)
 			}
-		case "plant", "live", "fsize", "fsizeplus", "cut":
+		case "size":
+			fmt.Fprintln(w, "act size "+strings.TrimPrefix(c.Res, "ok "))
+		case "plant", "live", "fsize", "fsizeplus", "cut", "zap":
 		default:
 			fmt.Fprintln(w, "act "+c.Text)
 		}
@@ -1544,7 +1591,11 @@ func c02EmitCase(w *bufio.Writer, co c02CaseOut, imgFor func(ki int, c c02CmdOut
 		}
 		if want && len(ops) > start {
 			for _, p := range c02ImagePoints(ops, start, len(ops), thorough, 1<<20) {
-				fmt.Fprintf(w, "img %d %d %d\n", p[0], p[1], p[2])
+				if p[3] > 0 {
+					fmt.Fprintf(w, "img %d %d %d %d\n", p[0], p[1], p[2], p[3])
+				} else {
+					fmt.Fprintf(w, "img %d %d %d\n", p[0], p[1], p[2])
+				}
 			}
 		}
 		// power loss right after an acknowledged Sync/Close: everything not fsynced is gone.  With the
@@ -1701,7 +1752,7 @@ func c02RunOps(in *bufio.Scanner, w *bufio.Writer, probe bool) {
 			switch f[1] {
 			case "load":
 				fmt.Fprintln(w, "ok "+f[len(f)-1])
-			case "sync", "close":
+			case "sync", "close", "size":
 				fmt.Fprintln(w, "ok "+f[len(f)-1])
 			default:
 				fmt.Fprintln(w, "ok")
@@ -1727,7 +1778,14 @@ func c02RunOps(in *bufio.Scanner, w *bufio.Writer, probe bool) {
 			i, _ := strconv.Atoi(f[1])
 			j, _ := strconv.Atoi(f[2])
 			k, _ := strconv.Atoi(f[3])
-			fmt.Fprintln(w, r.evalImage(c02Image(r.ops, i, j, k)))
+			img := c02Image(r.ops, i, j, k)
+			if len(f) > 4 { // zero extension of the main file
+				z, _ := strconv.Atoi(f[4])
+				if m, ok := img["main"]; ok {
+					img["main"] = append(append([]byte(nil), m...), make([]byte, z)...)
+				}
+			}
+			fmt.Fprintln(w, r.evalImage(img))
 		case "end":
 			fmt.Fprintln(w, "end")
 		case "tick":
